@@ -39,6 +39,9 @@ def check(model, tier):
     from ..rules import sqlplace as _sqlplace2
 
     _sqlplace2.r_inner_calculation_name(ctx, "R17.8")
+    from ..rules import sqlemit as _sqlemit
+
+    _sqlemit.r02_2_join_payload(ctx, rule="R17.9")  # a join keeps a stripped operand only when nothing it hides can shadow
     from ..rules.foundation import run_foundation
 
     run_foundation(ctx, "17")
